@@ -15,8 +15,10 @@ namespace Rio
 theorem C01_order (H : Bytes → Bytes) (l₁ l₂ : List Record) (hp : l₁.Perm l₂)
     (hn : (l₁.map (·.name)).Nodup) : hashBucket H l₁ = hashBucket H l₂ := by
   have hn₂ : (l₂.map (·.name)).Nodup := (hp.map (·.name)).nodup_iff.1 hn
+  have hc : distinctCount (l₁.map (·.name)) = distinctCount (l₂.map (·.name)) := by
+    rw [distinctCount_nodup _ hn, distinctCount_nodup _ hn₂, List.length_map, List.length_map, hp.length_eq]
   unfold hashBucket
-  rw [bucketLines_nodup l₁ hn, bucketLines_nodup l₂ hn₂]
+  rw [bucketLines_nodup l₁ hn, bucketLines_nodup l₂ hn₂, hc]
   unfold sortRecs
   rw [sortBy_perm_eq (·.name) hp hn]
 
